@@ -120,6 +120,11 @@ def run_case(acc, cseed, tmpdir, state):
     naming = rng.choice(["distinct", "distinct", "same-name-other-dir", "prefix-names"])
     for i in range(nimg):
         areas = ihex.gen_areas(rng)
+        if i > 0 and rng.random() < 0.25:
+            # another file with the very same application code (rebuilt, copied, written
+            # with another record layout): it is an image given like any other
+            areas = images[rng.randrange(len(images))][1]
+            acc.count("images_with_the_same_code_as_another")
         if naming == "same-name-other-dir":
             d = os.path.join(tmpdir, "d%d" % i)
             os.makedirs(d, exist_ok=True)
